@@ -10,16 +10,19 @@ PROPS = {'C06': {'C06'}, 'C07': {'C07'}, 'C08': {'C08'}, 'C09': {'C09'},
 # (population, runs) per tier.  Counts are fixed (not time-boxed) so that a
 # VERIF_SEED names the same set of runs on every machine.
 PLANS = {
-    'C06': {'quick': [('frag', 9000), ('corrupt', 3000), ('random', 1000)],
+    'C06': {'quick': [('frag', 9000), ('corrupt', 3000), ('random', 1000),
+                      ('long', 300)],
             'thorough': [('frag', 220000), ('corrupt', 60000),
-                         ('random', 20000)]},
+                         ('random', 20000), ('long', 8000)]},
     'C07': {'quick': [('frag', 8000), ('sweep', 1200)],
             'thorough': [('frag', 200000), ('sweep', 20000)]},
-    'C08': {'quick': [('corrupt', 10000), ('random', 1500), ('frag', 800)],
+    'C08': {'quick': [('corrupt', 10000), ('random', 1500), ('frag', 800),
+                      ('long', 300)],
             'thorough': [('corrupt', 250000), ('random', 30000),
-                         ('frag', 10000)]},
-    'C09': {'quick': [('corrupt', 12000), ('random', 2000)],
-            'thorough': [('corrupt', 300000), ('random', 40000)]},
+                         ('frag', 10000), ('long', 8000)]},
+    'C09': {'quick': [('corrupt', 12000), ('random', 2000), ('long', 500)],
+            'thorough': [('corrupt', 300000), ('random', 40000),
+                         ('long', 12000)]},
     'C20': {'quick': [('frag', 7000), ('corrupt', 3000), ('random', 2500)],
             'thorough': [('frag', 180000), ('corrupt', 60000),
                          ('random', 60000)]},
@@ -134,7 +137,7 @@ def shrink(check, trace, cls, vbuf=None, max_execs=2000):
             return False
         state['n'] += 1
         try:
-            res = execute(check, t)
+            res = core.isolated_execute('sim.check_a', check, t)
         except Exception:
             return False
         v = res['violation']
